@@ -262,3 +262,8 @@ pub use futures::future::ready;
 pub use futures::{FutureExt, TryFutureExt};
 /// identity on futures (operand of `->` in async programs)
 pub fn fut_id<F: Future>(f: F) -> F { f }
+/// generic conversion with two type parameters (turbofish with a comma as an operand)
+pub fn conv2<A: Into<B>, B>(a: A) -> B { a.into() }
+/// three type parameters
+pub fn fold3<A: Into<u8>, B: Into<u8>, C: From<u8>>(a: A, b: B) -> C { C::from(a.into() ^ b.into()) }
+pub fn wrapv<T>(v: T) -> Vec<T> { let mut x = Vec::new(); x.push(v); x }
